@@ -47,9 +47,17 @@ def instantiate(shape, rot, unknown=False, neigh=0):
     etm = [src['etm'][(rot + i) % len(src['etm'])] for i in range(netm)]
     eo = [C['enc_other'][(rot * 3 + neigh * 7 + i) % len(C['enc_other'])] for i in range(1 + neigh % 3)] if other or not (ch or cbc) else []
     mo = [C['mac_other'][(rot * 5 + neigh * 11 + i) % len(C['mac_other'])] for i in range(1 + neigh % 2)] if other or not etm else []
+    if unknown == 'mix':
+        # names the table knows next to unknown names of the same shape, the unknown one first, in between or last
+        dbc = [C['cbc'][(rot + i) % len(C['cbc'])] for i in range(ncbc)]
+        dbe = [C['etm'][(rot + i) % len(C['etm'])] for i in range(netm)]
+        dbch = [C['chacha'][i % len(C['chacha'])] for i in range(2) if chmask >> i & 1]
+        cbc = dbc[:rot % (ncbc + 1)] + [UNKNOWN['cbc'][rot % 3]] + dbc[rot % (ncbc + 1):] if ncbc else []
+        etm = dbe[:(rot + neigh) % (netm + 1)] + [UNKNOWN['etm'][rot % 2]] + dbe[(rot + neigh) % (netm + 1):] if netm else []
+        ch = ([UNKNOWN['chacha'][rot % 2]] + dbch) if (dbch and rot % 2) else (dbch + [UNKNOWN['chacha'][rot % 2]] if dbch else [])
     enc = ch + cbc + eo
     mac = etm + mo
-    if neigh % 2:
+    if neigh % 2 and unknown != 'mix':
         enc, mac = enc[::-1], mac[::-1]
     # no duplicates: a class member may coincide with a neighbour only through rotation of the same list
     enc = list(dict.fromkeys(enc))
@@ -157,6 +165,8 @@ def run(ctx):
         for i, s in enumerate(sh):
             if (s[2] or s[3] or s[4]) and i % 3 == ctx.seed % 3:
                 cases.append(instantiate(s, rot0 + i, unknown=True, neigh=i % 3))
+            if (s[2] or s[3] or s[4]) and i % 2 == ctx.seed % 2:
+                cases.append(instantiate(s, rot0 + i, unknown='mix', neigh=i % 3))
     else:
         for i, s in enumerate(sh):
             for rot in range(max(len(C['cbc']), len(C['etm']))):
@@ -165,6 +175,8 @@ def run(ctx):
             if s[2] or s[3] or s[4]:
                 for rot in range(3):
                     cases.append(instantiate(s, rot, unknown=True, neigh=rot))
+                for rot in range(6):
+                    cases.append(instantiate(s, rot, unknown='mix', neigh=rot % 3))
     # every CBC cipher and every ETM MAC of the table at least once in an exposed and in an advisory configuration
     for i, c in enumerate(C['cbc']):
         e = C['etm'][i % len(C['etm'])]
@@ -180,5 +192,5 @@ def run(ctx):
     ctx.map(uniq)
     ctx.exhaustive = True
     ctx.note(shapes=len(sh), class_sizes={k: len(v) for k, v in C.items()}, explanation='exhaustive flag: all 576 skeleton shapes are instantiated at least once (quick: one rotation each; thorough: every class member x neighbourhoods)')
-    return ctx.finish('exploration', 'every combination of role x marker(own/other/both/none) x ChaCha subset x number of CBC ciphers (0-2) x number of ETM MACs (0-2) x other algorithms present, instantiated with database names of each class in rotation with varying neighbours and order, plus unknown names of the same shapes; each case audited in text and JSON; non-trivial = exposed, or marker present with a non-empty affected set',
+    return ctx.finish('exploration', 'every combination of role x marker(own/other/both/none) x ChaCha subset x number of CBC ciphers (0-2) x number of ETM MACs (0-2) x other algorithms present, instantiated with database names of each class in rotation with varying neighbours and order, plus unknown names of the same shapes (alone, and placed before / between / after names the table knows); each case audited in text and JSON; non-trivial = exposed, or marker present with a non-empty affected set',
                       assumptions=['class membership by name shape: cipher begins chacha20-poly1305; cipher has a cbc mode component; MAC ends -etm@openssh.com', 'symmetric lists only (with asymmetric lists "offers" is ambiguous)'])
